@@ -106,6 +106,8 @@ DIRECTED = [
     # two groups, one sparse_super2 backup in the short last group, a large reserved GDT: the tail-group trimming has to count it
     (["-t", "ext4", "-b", "1024", "-i", "16384", "-O", "sparse_super2"], ["resize=4294967295", "num_backup_sb=1"], 8320),
     (["-t", "ext4", "-b", "1024", "-i", "16384", "-O", "sparse_super2,^flex_bg"], ["resize=4294967295", "num_backup_sb=1"], 8400),
+    # the listed known finding (inode count rounded below the request): 1000 inodes over 4 groups of 4-inode blocks
+    (["-t", "ext4", "-b", "1024", "-I", "256", "-N", "1000"], [], 32768),
     # dense inodes under flex_bg: packed inode tables that straddle a group boundary
     (["-t", "ext4", "-b", "1024", "-i", "1024", "-G", "16"], [], 131072),
     # RAID stride without flex_bg: the staggered bitmap position walks through every offset of a group, the last block included
